@@ -52,6 +52,11 @@ type Ctx struct {
 	rxTable *RxTable
 	factCache map[*ssa.Function]map[*ssa.BasicBlock]condFacts
 	smCache   []*submatchSite
+	defFrag   map[*ssa.Function]string
+	depWr     map[*ssa.Function]string
+	depCalls  int
+	depNotes  []string
+	wsites    []*writeSite
 
 	Exemptions map[string]string // obligation key -> reason (from exemptions.json)
 
